@@ -436,3 +436,18 @@ Qed.
 
 End StepFacts.
 
+
+(* ------------------------------------------------------------------ NEXT uses the most recent record *)
+
+Definition rec_at (j k : nat) (f : frec) : bool := Nat.eqb (f_nidx f) j && Nat.eqb (f_nk f) k.
+
+(* the FOR stack is searched from the top: the most recent record for this NEXT position is the one used,
+   whatever older (stale) records for the same position lie below it; the records above it are dropped *)
+Lemma find_for_most_recent newer f older j k :
+  (forall g, In g newer -> rec_at j k g = false) -> rec_at j k f = true ->
+  find_for (newer ++ f :: older) j k = Some (f, older).
+Proof.
+  unfold rec_at. induction newer as [|g newer IH]; intros Hn Hf; simpl.
+  - rewrite Hf. reflexivity.
+  - rewrite (Hn g (or_introl eq_refl)). apply IH; auto. intros g' Hg. apply Hn. right. exact Hg.
+Qed.
